@@ -11,3 +11,7 @@ mkdir -p evidence out
 import sys; sys.path.insert(0, '.')
 from vf.ref import bencode, hashing
 bencode.selfcheck(); hashing.selfcheck(); print('reference self-checks ok')"
+# optional: atheris for the coverage-guided stage of the thorough tier (checks skip the stage when it is absent)
+if ! /venv/bin/python -c "import sys; sys.path.insert(0, '.deps'); import atheris" 2>/dev/null; then
+    /venv/bin/pip install -q --no-index --find-links /opt/veriftools/wheels --target .deps atheris 2>/dev/null || echo "atheris not installed: coverage-guided stage will be skipped"
+fi
